@@ -125,7 +125,12 @@ func Verif_C06_InvalidSettings() {
 	sc := scen.Payload(scen.Options{})
 	info := sc.Info
 	format := ""
-	switch v.NondetChoice("class", 7) {
+	switch v.NondetChoice("class", 8) {
+	case 7: // archlinux package name of allowed characters that starts with '-' or '.'
+		format = "archlinux"
+		rest := v.NondetStringRange("name.rest", 0, 3)
+		v.Assume(v.AllIn(rest, "a-z0-9._+-"))
+		info.Name = []string{"-", "."}[v.NondetChoice("name.first", 2)] + rest
 	case 0: // unknown deb compression
 		format = "deb"
 		c := v.NondetStringRange("compression", 1, 4)
